@@ -101,6 +101,10 @@ def report(ck, name, pair, o, projection, meta=None):
            "gopatch_output": unb64(r["out"]).decode("utf-8", "replace") if r.get("out") else None,
            "steps_gopatch": o.get("isteps"), "steps_model": o.get("msteps")}
     if o["skipped"]:
+        if o["skipped"].startswith("output does not print/parse") and (meta or {}).get("must_parse"):
+            ck.violation("the rewritten file does not print or parse (%s) although the instantiated '+' pattern is admissible at "
+                         "every site of this input" % o["skipped"][29:150], rep)
+            return True
         ck.tally("outcome", "skipped: " + o["skipped"][:40])
         return False
     if not o["diffs"]:
